@@ -157,6 +157,12 @@ impl HalState {
     }
     /// Moves the next DMA device address forward by `pages` pages (so that allocations start at
     /// addresses whose low page-frame bits are set).
+    /// Start of the device-address window from which `share` hands out addresses (default
+    /// 0x9_0000_0000). With 0 the first shared buffer gets device address 0, which is as good an
+    /// I/O virtual address as any other.
+    pub fn set_share_base(&mut self, base: u64) {
+        self.next_share_paddr = base;
+    }
     pub fn skew_dma(&mut self, pages: u64) {
         self.next_dma_paddr += pages * PAGE_SIZE as u64;
     }
